@@ -38,7 +38,11 @@ def main():
             print("SKIP %s: pattern occurs %d times" % (m["id"], src.count(m["old"])))
             continue
         try:
-            open(path, "w").write(src.replace(m["old"], m["new"]))
+            new_src = src.replace(m["old"], m["new"])
+            if "old2" in m:
+                assert new_src.count(m["old2"]) == 1
+                new_src = new_src.replace(m["old2"], m["new2"])
+            open(path, "w").write(new_src)
             row = {"id": m["id"]}
             if run_tests:
                 r = sh("cd " + REPO + " && /venv/bin/python -m pytest -q -p no:cacheprovider -x --deselect "
